@@ -208,3 +208,20 @@ Definition ohist_check (c : ohist_case) : bool :=
                  (World (seqN ne) (seqN na) (seqN nv)) [] cs) obs
   end.
 Definition ohist_mismatches (cs : list ohist_case) : list N := failing ohist_check cs.
+
+(* a history over expected types with named types (aliases) at ANY position below Optional / Array / Hash / Tuple / Struct /
+   Variant (Model/DescribeNested.v): the alias environment of the world (one declaration per alias OBJECT the harness met,
+   after the aliases it refers to), the expected objects written over it, lattice actual types and values with the type
+   the implementation inferred, against the state-passing run *)
+From PcoreV Require Import Model.DescribeNested.
+Definition xhist_case := (list ety * list ety * list ty * list (value * ty) * list call * list hobserved)%type.
+Definition xhist_check (o : oracle) (c : xhist_case) : bool :=
+  match c with
+  | (bodies, es, as_, vs, cs, obs) =>
+      env_ok bodies &&
+      match mapo (eresolve bodies) es with
+      | Some xs => all_ans (xrun (rx_of o) teq0 (World xs as_ vs) [] cs) obs
+      | None => false
+      end
+  end.
+Definition xhist_mismatches (o : oracle) (cs : list xhist_case) : list N := failing (xhist_check o) cs.
